@@ -338,7 +338,38 @@ def _apply(ex, f, args, st):
     return [(st, ("val", app("apply", f, *args)))]
 
 
+_UNORDERED = ("std::collections::BTreeSet", "std::collections::HashSet", "std::collections::BTreeMap", "std::collections::HashMap",
+              "std::collections::BinaryHeap", "std::collections::btree_set", "std::collections::hash_set", "std::collections::btree_map",
+              "std::collections::hash_map", "std::collections::binary_heap")
+
+
 def drive(ex, name, it, args, node, st):
+    """The target collection of `collect` decides whether element order / multiplicity survive: anything but a
+    sequence type yields an opaque `collect_into(<type>, seq)` term instead of the sequence itself."""
+    res = _drive(ex, name, it, args, node, st)
+    if name != "collect" or node.get("id", -1) < 0:
+        return res
+    core = ex.fx.ty(node) or ""
+    for pre in ("std::result::Result<", "std::option::Option<"):
+        if core.startswith(pre):
+            core = core[len(pre):]
+    if not core.startswith(_UNORDERED):
+        return res
+    kind = lit(core.split("<")[0])
+    out = []
+    for s2, o in res:
+        if o[0] == "val":
+            v = o[1]
+            if v[0] == "ctor" and v[2] in ("Ok", "Some") and v[3]:
+                v = (v[0], v[1], v[2], tuple((k, app("collect_into", kind, x)) for k, x in v[3]))
+            else:
+                v = app("collect_into", kind, v)
+            o = ("val", v)
+        out.append((s2, o))
+    return out
+
+
+def _drive(ex, name, it, args, node, st):
     """Drive a lazy iterator: one symbolic iteration through the adaptor pipeline."""
     base, orient, flags = it[1], it[2], it[3]
     conc = _concrete_elems(base)
